@@ -588,6 +588,14 @@ func stCorpus(c *Ctx, kind string) {
 		{kind: 'g', id: zid}, {kind: 'r'},
 		{kind: 'p', id: key32(4, 4), val: stVal{long: true, vid: 501, n: 30000}}, {kind: 'g', id: zid},
 		{kind: 'p', id: zid, val: stVal{raw: []byte{0xfe, 0, 0, 0, 0, 0, 0, 1}}}, {kind: 'r'}, {kind: 'g', id: key32(3, 3)}})
+	// prune, then close and reopen twice with no accepted put in between: what was readable before the close stays readable
+	var pr []stOp
+	for i, n := range []int{300000, 300000, 300000, 150000} {
+		pr = append(pr, stOp{kind: 'p', id: key32(byte(i+1), 0x21), val: stVal{long: true, vid: uint64(600 + i), n: n}})
+	}
+	pr = append(pr, stOp{kind: 'g', id: key32(1, 0x21)}, stOp{kind: 'r'}, stOp{kind: 'g', id: key32(2, 0x21)}, stOp{kind: 'r'}, stOp{kind: 'g', id: key32(3, 0x21)},
+		stOp{kind: 'p', id: key32(1, 0x22), val: stVal{raw: []byte{9}}}, stOp{kind: 'r'})
+	stHistory(c, kind, 1, z, pr)
 	// empty history, reopen of an empty store
 	stHistory(c, kind, 1, z, []stOp{{kind: 'r'}, {kind: 'g', id: key32(1, 1)}})
 	// a value larger than the capacity
